@@ -289,7 +289,7 @@ def reference(lib, rs, skip_target: int | None = None) -> dict:
     for j, t in enumerate(targets):
         if j == skip_target:
             continue
-        f = drive.resolve(t.strip("/"))
+        f = drive.resolve(t.strip("/")) or drive.resolve(t.strip("/"), ci=True)   # Graph addresses paths case-insensitively
         if f is not None and f.kind == "folder" and f.parent is not None:
             starts.append((f, t.strip("/")))
     for f, pp0 in starts:
@@ -299,6 +299,10 @@ def reference(lib, rs, skip_target: int | None = None) -> dict:
                 old = exp.get(n.id)
                 exp[n.id] = (n.name, pp, max(v, old[2]) if old else v, n)
     return exp
+
+
+def _norm_pp(p) -> str:
+    return "/".join(seg for seg in (p or "").split("/") if seg)
 
 
 def compare(rs, exp: dict, listing) -> list[tuple[str, str, object]]:
@@ -571,17 +575,105 @@ def _plan_overlap_runs(rng, lib):
     return runs
 
 
+def _prefix_pairs(lib, d):
+    """(A, B): sibling folders where B's name starts with A's name, both with files below."""
+    has = lambda f: any(True for _ in lib.walk_files(f, ""))
+    out = []
+    for a in d.folders():
+        for b in a.parent.children:
+            if b is not a and b.kind == "folder" and b.name.startswith(a.name) and has(a) and has(b):
+                out.append((a, b))
+    return out
+
+
+def _plan_prefix_runs(rng, lib):
+    """Clean: folder_paths whose entries are string prefixes of each other without containing each other (sibling names
+    "Plan" / "Plan2024"), in both orders, mixed with genuinely nested paths, repeats and a case variant, through all three
+    filtered entry points.  The reference walk decides; every file is due exactly once."""
+    runs = []
+    far = {"us": 946_684_800_000_000, "tzmin": 0}
+    for d in lib.drives[:2]:
+        pairs = _prefix_pairs(lib, d)
+        rng.shuffle(pairs)
+        for a, b in pairs[:2]:
+            A, B = a.path(), b.path()
+            subs_b = [c for c in b.children if c.kind == "folder"]
+            subs_a = [c for c in a.children if c.kind == "folder"]
+            lists = [("prefix-first", [A, B]), ("extension-first", [B, A]), ("repeat", [A, B, A])]
+            if subs_b:
+                lists.append(("below-extension", [A, rng.choice(subs_b).path()]))
+            if subs_a:
+                x = rng.choice(subs_a).path()
+                lists.append(("nested", rng.choice(([A, x, B], [x, A, B], [B, x, A]))))
+            if B.swapcase() != B:
+                lists.append(("case-variant", [A, B.swapcase()]))
+            third = [f.path() for f in d.folders() if f is not a and f is not b and not f.path().startswith(A)]
+            if third:
+                lists.append(("with-unrelated", [rng.choice(third), A, B]))
+            for order, paths in lists:
+                api = rng.choice(["filtered", "filtered", "modified_since", "created_since"])
+                tags = ["folder_paths", "prefix-sibling", "prefix-sibling:" + order]
+                if api == "filtered":
+                    flt = {"folder_paths": paths}
+                    if rng.random() < 0.3:
+                        flt["extensions"] = _exts(rng, list(lib.walk_files(b, B)))
+                        tags.append("extensions")
+                    rs = {"api": api, "filter": flt, "tags": tags, "feature": "clean"}
+                else:
+                    rs = {"api": api, "since": dict(far), "folder_paths": paths, "tags": tags + ["bound:far"], "feature": "clean"}
+                if d is not lib.default_drive:
+                    rs["drive"] = d.id
+                    tags.append("named-drive")
+                runs.append(rs)
+    return runs
+
+
+def _plan_slash_runs(rng, lib):
+    """Risky feature: a folder_paths entry spelled with a leading / trailing slash (the lookup strips them)."""
+    runs = []
+    for d in lib.drives[:2]:
+        fs = [f for f in d.folders() if any(True for _ in lib.walk_files(f, ""))]
+        rng.shuffle(fs)
+        picked = []
+        for f in fs:
+            if not any(f.path() == q.path() or f.path().startswith(q.path() + "/") or q.path().startswith(f.path() + "/") for q in picked):
+                picked.append(f)
+        for n in (1, 2):
+            if len(picked) < n:
+                continue
+            paths = [rng.choice(("/%s", "%s/", "/%s/")) % f.path() for f in picked[:n]]
+            rs = {"api": rng.choice(["filtered", "modified_since"]), "tags": ["folder_paths", "slashed-folder-path"], "feature": "slashpath"}
+            if rs["api"] == "filtered":
+                rs["filter"] = {"folder_paths": paths}
+            else:
+                rs.update(since={"us": 946_684_800_000_000, "tzmin": 0}, folder_paths=paths)
+                rs["tags"].append("bound:far")
+            if d is not lib.default_drive:
+                rs["drive"] = d.id
+            runs.append(rs)
+    return runs
+
+
+def _strip_slashes(rs):
+    t = json.loads(json.dumps(rs))
+    holder = t["filter"] if t["api"] == "filtered" else t
+    holder["folder_paths"] = [p.strip("/") for p in holder["folder_paths"]]
+    t["feature"] = "clean"
+    t["tags"] = [x for x in t["tags"] if x != "slashed-folder-path"] + ["twin"]
+    return t
+
+
 def plan_cases(run) -> list[dict]:
     rng = run.rng
     cases = []
     # (shape, page sizes, weight, enumerate faults?)
     if run.quick:
         mix = [("tiny", 16, True), ("small", 18, True), ("medium", 4, True), ("deep", 4, True), ("wide", 3, True), ("large", 4, False)]
-        n_frac, n_over = 5, 4
+        n_frac, n_over, n_prefix, n_slash = 5, 4, 8, 3
     else:
         mix = [("tiny", 80, True), ("small", 110, True), ("medium", 45, True), ("deep", 40, True), ("wide", 30, True), ("large", 12, False),
                ("large", 2, True)]
-        n_frac, n_over = 30, 20
+        n_frac, n_over, n_prefix, n_slash = 30, 20, 60, 15
     cid = 0
 
     def recipe(shape):
@@ -600,11 +692,24 @@ def plan_cases(run) -> list[dict]:
             prng = random.Random(f"plan:{rc['seed']}")
             cases.append({"cid": cid, "lib": rc, "runs": _plan_clean_runs(prng, lib), "enumerate": enum, "feature": "clean"})
             cid += 1
-    for feature, count, planner in (("fracbound", n_frac, _plan_frac_runs), ("overlap", n_over, _plan_overlap_runs)):
+    made = tries = 0
+    while made < n_prefix and tries < n_prefix * 20:      # clean family: sibling folders whose names are prefixes of each other
+        tries += 1
+        rc = dict(recipe(rng.choice(["tiny", "small", "small", "medium", "deep"])), prefix_siblings=True)
+        lib = G.Library(rc)
+        runs = _plan_prefix_runs(random.Random(f"plan:{rc['seed']}"), lib)
+        if not runs:
+            continue
+        made += 1
+        cases.append({"cid": cid, "lib": rc, "runs": runs, "enumerate": False, "feature": "clean"})
+        cid += 1
+    for feature, count, planner in (("fracbound", n_frac, _plan_frac_runs), ("overlap", n_over, _plan_overlap_runs), ("slashpath", n_slash, _plan_slash_runs)):
         made = tries = 0
         while made < count and tries < count * 20:
             tries += 1
             rc = recipe(rng.choice(["small", "medium", "wide", "deep"]))
+            if feature == "slashpath":
+                rc["prefix_siblings"] = True
             lib = G.Library(rc)
             prng = random.Random(f"plan:{rc['seed']}")
             runs = planner(prng, lib)
@@ -615,6 +720,9 @@ def plan_cases(run) -> list[dict]:
             if feature == "fracbound":
                 trc = dict(rc, strip_fraction=True)
                 truns = [_floor_bounds(r) for r in runs]
+            elif feature == "slashpath":
+                trc = dict(rc)
+                truns = [_strip_slashes(r) for r in runs]
             else:
                 trc = dict(rc)
                 truns = []
@@ -738,6 +846,10 @@ class Judge:
                 detail += (f" [file lastModified={G.stamp_text(node.modified) if node.modified else None} created={G.stamp_text(node.created) if node.created else None};"
                            f" filter={json.dumps({k: v for k, v in flt.items() if v})}]")
                 risky_probs.append((key, f"{api}: {detail}", rep0))
+            elif feature == "slashpath" and sym == "wrong-parent-path" and node is not None and any(
+                    r[0] == node.id and _norm_pp(r[2]) == _norm_pp(exp[node.id][1]) for r in base["listing"]):
+                key = "C18:list_files_filtered:folder-path-with-outer-slashes:wrong-parent-path"
+                risky_probs.append((key, f"{api} folder_paths={flt.get('folder_paths')}: {detail}", rep0))
             elif feature == "overlap" and sym == "duplicate":
                 key = "C18:list_files_filtered:overlapping-folder-paths:duplicate"
                 risky_probs.append((key, f"{api} folder_paths={flt.get('folder_paths')}: {detail}", rep0))
@@ -860,6 +972,7 @@ def main(run):
     run.assumptions = [
         "vlib/gen/graphsim.py answers like Microsoft Graph for the endpoints the client uses (token, site lookup, drives, children by id/path with @odata.nextLink, item by path)",
         "a fault fires once, at request index k of a fresh client; later requests are served normally",
+        "folder_paths are addressed case-insensitively (as the simulator / Graph does); the expected parent path keeps the caller's spelling without outer slashes",
         "files whose JSON lacks the filtered timestamp, patterns matching only case-insensitively and multi-dot extensions are 'either answer accepted'",
         "list_files_in_folder / list_drives are judged on (id, name) only; an HTTPError body left unclosed by the client is counted, not judged",
     ]
@@ -908,6 +1021,10 @@ def main(run):
     run.require("max_depth_seen", c["max_depth_seen"], 5)
     run.require("max_children_seen", c["max_children_seen"], run.n(10, 12))
     run.require("risky_fraction_runs", judge.tag_runs["bound:fraction-at-bound"], run.n(5, 30))
+    run.require("prefix_sibling_folder_path_runs", judge.tag_runs["prefix-sibling"], run.n(30, 200))
+    for order in ("prefix-first", "extension-first", "repeat", "below-extension", "nested", "case-variant"):
+        run.require("prefix_sibling_runs:" + order, judge.tag_runs["prefix-sibling:" + order], run.n(3, 20))
+    run.require("slashed_folder_path_runs", judge.tag_runs["slashed-folder-path"], run.n(3, 15))
     run.require("responses_opened", c["responses_opened"], 1000)
     # "non-2xx without exception" must be injected from every status class outside 2xx (1xx, 3xx, 4xx, 5xx), at every request kind
     ret_classes = {int(k[3:]) // 100 for (l, k), v in judge.label_kind.items() if k.startswith("ret") and v}
